@@ -119,9 +119,11 @@ type expSession struct {
 	// C01: called when the application reaches a "cstall" op
 	onConsumerStall func(d time.Duration)
 	// the last data call that went through the plain path and succeeded (op "resend")
-	lastData     *callRec
-	lastDataID   uint16
-	lastDataOp   int
+	lastData   *callRec
+	lastDataID uint16
+	lastDataOp int
+	// sendThis: the Set the next send hands over instead of s.set (op "lazytmpl")
+	sendThis     entities.Set
 	lastDataPath string
 }
 
@@ -293,7 +295,11 @@ func (s *expSession) send(c callRec) {
 	s.mu.Unlock()
 	c.T0 = time.Now()
 	f0 := s.wfFired
-	n, err := s.ep.SendSet(s.set)
+	set := s.set
+	if s.sendThis != nil {
+		set = s.sendThis
+	}
+	n, err := s.ep.SendSet(set)
 	c.T1 = time.Now()
 	c.N, c.Err = n, err
 	c.Faulted = s.wfFired != f0
@@ -507,6 +513,8 @@ func (s *expSession) runOps1(i int, op plan.Op) {
 		s.opTmpl(i, op)
 	case "resend":
 		s.opResend(i, op)
+	case "lazytmpl":
+		s.opLazyTmpl(i, op)
 	case "emptyprep":
 		// a batch that turned out empty: the Set was prepared for a template, nothing was added, it is
 		// not sent; the application resets and prepares it for whatever comes next, as always
@@ -936,6 +944,67 @@ func (s *expSession) opData1(i int, op plan.Op) {
 	} else {
 		s.lastData = nil
 	}
+}
+
+// opLazyTmpl: a batching application that announces a template only when the first record for it is
+// pending. The record is already in its data Set (not sent yet); the template record is built from
+// the very same element objects - AddRecordV2 takes them as they are, a template has no use for
+// their values - and sent; then the data Set goes out. The record carries the values it was given.
+func (s *expSession) opLazyTmpl(i int, op plan.Op) {
+	slot := int(op.A)
+	if _, dup := s.tmpls[slot]; dup {
+		return
+	}
+	var specs []elemSpec
+	for _, k := range op.N {
+		if sp, ok := specFromKey(k); ok {
+			specs = append(specs, sp)
+		}
+	}
+	if len(specs) == 0 || len(specs) > 40 {
+		return
+	}
+	id := uint16(256 + slot)
+	r := rand.New(rand.NewPCG(uint64(op.C), 0xda80))
+	elems := make([]entities.InfoElementWithValue, len(specs))
+	wires := make([][]byte, len(specs))
+	total := 16 + 4
+	for k, sp := range specs {
+		ie, err := registry.GetInfoElement(sp.Name, sp.Ent)
+		if err != nil {
+			panic(err)
+		}
+		wires[k] = genWire(r, sp, 30)
+		elems[k] = mkElement(sp, ie, wires[k])
+		total += encodedLen(sp, wires[k])
+	}
+	pending := entities.NewSet(false)
+	if err := pending.PrepareSet(entities.Data, id); err != nil {
+		panic(err)
+	}
+	if err := pending.AddRecord(elems, id); err != nil {
+		panic(err)
+	}
+	s.set.ResetSet()
+	if err := s.set.PrepareSet(entities.Template, id); err != nil {
+		panic(err)
+	}
+	if err := s.set.AddRecordV2(elems, id); err != nil {
+		panic(err)
+	}
+	ti := &tmplInfo{ID: id, Specs: specs}
+	s.mu.Lock()
+	s.tmpls[slot] = ti
+	s.mu.Unlock()
+	s.env.Count("probe.template_built_from_a_pending_record", 1)
+	s.send(callRec{Op: i, Kind: "tmpl", Slot: slot, Valid: true})
+	if s.calls[len(s.calls)-1].Err != nil {
+		return
+	}
+	ti.Sent = true
+	s.sendThis = pending
+	s.send(callRec{Op: i, Kind: "data", Slot: slot, Valid: true, MsgLen: total, Records: []sentRecord{{Wires: wires}}})
+	s.sendThis = nil
 }
 
 // opResend sends the Set object as it stands after a successful data send once more: a Set stays
